@@ -11,7 +11,7 @@ from proxy.common.utils import build_http_response
 from proxy.http import responses as R
 from proxy.http.exception import HttpRequestRejected
 
-from vlib import envkit, refhttp
+from vlib import envkit, refhttp, scen
 from vlib.hk import CFG, begin, ok, fail, skip, B, run, cat, concrete
 
 envkit.install()
@@ -132,6 +132,80 @@ def totality(s0: int, s1: int, s2: int, s3: int, s4: int, c: int) -> bool:
     return ok()
 
 
+def after_served(s0: int, s1: int, s2: int, c: int) -> bool:
+    """
+    pre: 0 <= s0 < 256 and 0 <= s1 < 256 and 0 <= s2 < 256
+    pre: 0 <= c <= 1
+    post: _
+    """
+    begin()
+    # bytes that follow a request which a web-server route is serving: whatever the proxy itself emits afterwards is a whole number
+    # of well-formed responses, at most one per request - and never an HTTP message inside an upgraded (websocket) stream
+    tpl = CFG['tpl']
+    with concrete():
+        env = envkit.new_env()
+        h, cs = envkit.make_handler(scen.FLAGS['webws'], env)
+    if tpl.startswith('ws'):
+        first = scen.WS_HANDSHAKE
+        if tpl == 'ws_op':
+            nxt = B(s0, 0x00)                  # arbitrary FIN/RSV/opcode byte (CLOSE, PING, reserved ...), empty payload
+        elif tpl == 'ws_len':
+            nxt = B(0x81, s0, s1)              # arbitrary length/mask byte, one byte following
+        else:
+            nxt = B(0x88, 0x02, s0, s1)        # CLOSE with an arbitrary status code
+        nreq = 1
+    else:
+        first = b'GET /hello HTTP/1.1\r\nHost: x\r\n\r\n'
+        if tpl == 'follow_close':
+            nxt = b'GET /hello' + B(s0) + b' HTTP/1.1\r\nHost: x\r\n' + (b'Connection: close\r\n' if c else b'') + b'\r\n'
+            if s0 <= 32 or s0 >= 127:
+                return skip()
+        elif tpl == 'follow_http10':
+            nxt = b'GET /hello HTTP/1.' + B(s0) + b'\r\nHost: x\r\n\r\n'
+        else:
+            nxt = b'GET /hello HTTP/1.1\r\nA' + B(s0) + b':' + B(s2) + b'\r\n\r\n'
+        nreq = 2
+    cs.inq.append(first)
+    try:
+        td = run(h.handle_events([cs.fd], []))
+    except Exception as e:
+        return fail('exception on the first request', exc=repr(e))
+    if td or h.must_flush_before_shutdown or h.plugin is None:
+        return fail('first request not served')
+    n0 = len(cat(h.work.buffer))
+    head = cat(h.work.buffer)
+    cs.inq.append(nxt)
+    raised = None
+    try:
+        td = run(h.handle_events([cs.fd], []))
+    except Exception as e:
+        raised = e
+    out = cat(h.work.buffer)
+    if out[:n0] != head:
+        return fail('already queued output altered')
+    tail = out[n0:]
+    if tpl.startswith('ws'):
+        if tail[:5] == b'HTTP/' or b'HTTP/1.1 4' in tail:
+            return fail('an HTTP response was written into the upgraded websocket stream', tail=repr(tail[:60]))
+        return ok()
+    # plain HTTP: everything queued is a sequence of complete, well-formed responses; not more of them than requests
+    data = out
+    nresp = 0
+    while len(data) > 0:
+        why = refhttp.response_wellformed(data, closes_after=False, allow_remainder=True) if False else None
+        try:
+            m = refhttp.read_message(data, True)
+        except refhttp.Malformed as e:
+            return fail('queued output is not a sequence of well-formed responses', why=str(e), out=repr(data[:80]))
+        nresp += 1
+        data = m['remainder']
+    if nresp > nreq:
+        return fail('more responses than requests', nresp=nresp, out=repr(out[:200]))
+    if raised is None and not (td or h.must_flush_before_shutdown) and nresp < nreq and h.plugin.pipeline_request is None:
+        return fail('complete follow-up request neither answered nor rejected', out=repr(out[:120]))
+    return ok()
+
+
 def builders(r0: int, r1: int, n0: int, v0: int, v1: int, d0: int, d1: int, d2: int) -> bool:
     """
     pre: 33 <= r0 <= 126 and 33 <= r1 <= 126 and 33 <= v0 <= 126 and 33 <= v1 <= 126
@@ -235,6 +309,8 @@ def obligations(tier):
         for trunc in (3, 10, 20, 30, 41, 43, 58):
             obs.append({'name': 'totality.%s.truncated%d' % (role, trunc), 'fn': 'totality',
                         'cfg': {'tpl': 'truncated', 'role': role, 'trunc': trunc}, 'timeout': T, 'group': 'totality'})
+    for tpl in ('ws_op', 'ws_len', 'ws_close', 'follow_close', 'follow_http10'):
+        obs.append({'name': 'after_served.%s' % tpl, 'fn': 'after_served', 'cfg': {'tpl': tpl}, 'timeout': T, 'group': 'after_served'})
     codes = (200, 404) if tier == 'quick' else (100, 200, 204, 301, 304, 400, 404, 407, 500, 502, 599)
     for code in codes:
         for blen in (0, 1, 3):
@@ -274,7 +350,9 @@ META = {
     'bounds': {
         'quick': 'first-request bytes from 13 mutation templates (method of 3 arbitrary bytes, target of 3-4, version tail of 3, header name/'
                  'value of 1+1 (thorough 2+1), Content-Length value of 3, chunk-size of 2, 4 fully arbitrary bytes with and without a terminator, a 5-byte '
-                 'arbitrary request line, truncations at 7 points, web path of 3) in three roles (proxy, web server, both), one segment; '
+                 'arbitrary request line, truncations at 7 points, web path of 3) in three roles (proxy, web server, both), one segment; after a '
+                 'served web request: a follow-up request with arbitrary path byte / version digit and optional Connection: close, and '
+                 'after a websocket upgrade: frames with arbitrary opcode byte, length byte, close status; '
                  'builders: status codes from a list, reason of 2 symbolic bytes, optional header, body 0..3 symbolic bytes, conn_close / no_cl',
         'thorough': 'two segments (cuts at 3 and 9) for every template, 11 status codes',
     },
